@@ -90,6 +90,10 @@ func makeCfg(prof string, r *rng) WorldCfg {
 	case "map":
 		c := baseCfg(r, 2, 4, hostPalette)
 		c.Dev.AtomSize = pow2(r, 0, 8)
+		if r.chance(40) {
+			// one memory type that must never be mapped
+			c.Dev.Types = append(c.Dev.Types, simvk.TypeCfg{Heap: 0, Flags: simvk.PropDeviceLocal})
+		}
 		return c
 	case "pools":
 		c := baseCfg(r, 2, 4, typePalette[:6])
@@ -894,7 +898,24 @@ func (g *generator) genNamed(w *World, name string) (Op, bool) {
 		if ps := g.livePools(w); len(ps) > 0 && r.chance(40) {
 			pool = g.pickOf(ps)
 		}
-		return g.genAlloc(w, pool, fMapped)
+		// a quarter of the persistently mapped requests are dedicated ones: the dedicated path decides
+		// on its own whether to map (memory types that are not host-visible must not be mapped)
+		extra := fMapped
+		if r.chance(25) && !(pool >= 0 && w.pools[pool].blockSize > 0) {
+			extra |= fDedicated
+		}
+		op, ok := g.genAlloc(w, pool, extra)
+		if ok && pool < 0 && r.chance(30) {
+			// aim a mapped request at a memory type that is not host-visible (the flag is then ignored)
+			for t := range w.cfg.Dev.Types {
+				if w.typeFlags(t)&simvk.PropHostVisible == 0 {
+					op.Args[3], op.Args[4], op.Args[6], op.Args[7] = 1<<uint(t), uUnknown, 0, 0
+					op.Args[5] &^= fHostRandom | fHostSeqWrite | fHostAllowTransfer
+					break
+				}
+			}
+		}
+		return op, ok
 	case "lalloc": // limits-flavoured flags
 		pool := -1
 		if ps := g.livePools(w); len(ps) > 0 && r.chance(25) {
